@@ -75,7 +75,7 @@ def build(layout):
         classes[cname] = type(cname, tuple(classes[b] for b in bases) or (StateMachine,), ns)
     return classes
 names = ["sa", "sb", "sc", "sd"]
-for trial in range(400):
+for trial in range(400 * int(os.environ.get("VERIF_SCALE", "1"))):
     shape = rnd.choice(["single", "linear", "diamond", "mixin"])
     def sts(k): return [(nm, rnd.random() < 0.35, rnd.random() < 0.2) for nm in rnd.sample(names, k)]
     if shape == "single": layout = [("K0", [], sts(rnd.randrange(1, 4)))]
